@@ -14,6 +14,12 @@ ENGINES = [
 NOTES = "Property-based testing and fuzzing only. See DESIGN.md. Known findings: /verif/known_findings.json."
 NOT_APPLICABLE = {}
 CHECKS = {
+    "C14": {
+        "text": "Metamorphic check over ~3k (quick) generated programs and repository samples: a variant with 1-4 layout trivia (trailing/whole-line comments, blank and whitespace-only lines, trailing spaces, final newline, CRLF, doubled grouping parentheses) must get the same verdict and byte-identical Python (equal Python ast for parentheses).",
+        "design_ref": "DESIGN.md section 6 C14",
+        "note": "Code lines are recognised by quote parity (inputs with multi-line strings are replaced by a fixed program); verdict differences are re-run 12x to separate them from C12's nondeterminism.",
+        "technique": "property-based testing: metamorphic relation under layout-preserving transformations (Hypothesis)",
+    },
     "C12": {
         "text": "History/schedule invariant over one input: every generated program, repository sample and two-file project is transpiled >=20 times (same process, concurrent threads, fresh processes, after a history of other inputs); verdicts must agree and successful outputs must be byte-identical. Each repetition redraws the hash seeds, which is the only schedule-dependent input of a program without shared state.",
         "design_ref": "DESIGN.md section 6 C12",
